@@ -33,12 +33,39 @@ def check(model: Model, run: Run) -> None:
                        "rebuilds the same tree (its offset arithmetic: C14)")
     # ---- locate the serialiser through the escape pattern's use site --------------------
     subs = [s for s in find_sites(model) if s.module == FILTER and s.api == "sub" and isinstance(s.pattern, bytes)]
-    ser = [s for s in subs if len(build(s.pattern, s.flags, "match").positions) == 1 and not build(s.pattern, s.flags, "match").loops]
+    # the value serialiser is the module function the __str__ methods hand their bytes fields to; its substitution is the escape site
+    from collections import Counter
+    called = Counter()
+    for cq in model.subclasses(f"{FILTER}.LDAPFilter", strict=True):
+        strm = model.classes[cq].methods.get("__str__")
+        bfs = set(bytes_fields(model, cq))
+        if strm is None or not bfs:
+            continue
+        for c in ast.walk(strm.node):
+            if isinstance(c, ast.Call) and isinstance(c.func, ast.Name) and any(isinstance(x, ast.Attribute) and isinstance(x.value, ast.Name) and x.value.id == "self" and x.attr in bfs
+                                                                              for a in c.args for x in ast.walk(a)):
+                q = model.resolve_name(FILTER, c.func.id)
+                if q in model.functions:
+                    called[q] += 1
+    if not called:
+        raise AnalysisError("no __str__ of a filter class hands a bytes field to a module function (value serialiser not found)")
+    ser_q = called.most_common(1)[0][0]
+    ser = [s for s in subs if s.func == ser_q or s.func.startswith(ser_q + ".")]
     if len(ser) != 1:
-        raise AnalysisError(f"expected one single-class escape substitution in _filter.py, found {len(ser)}")
+        raise AnalysisError(f"expected one escape substitution in {ser_q}, found {len(ser)}")
     esite = ser[0]
-    sfi = model.functions[esite.func]
-    E = build(esite.pattern, esite.flags, "match").positions[0].cs
+    sfi = model.functions[ser_q]
+    single = single_byte_pattern(esite.pattern, esite.flags)
+    enfa = build(esite.pattern, esite.flags, "match") if single else None
+    run.ob("J2-escape-pattern-is-one-unconditional-byte-class", single, {"pattern": repr(esite.pattern)[:80]})
+    if not single:
+        run.fail(Finding("J2-escape-pattern-is-one-unconditional-byte-class", f"{FILTER}.{esite.name}", "conditional or multi-byte escape pattern",
+                         "the value serialiser's escape pattern is not a plain set of single bytes (look-around, alternation of longer strings ...): whether a byte is escaped then "
+                         "depends on its neighbours, so some value containing a special byte is written unescaped", model.loc(FILTER, esite.node)))
+        return
+    E = enfa.positions[0].cs
+    for p_ in enfa.positions[1:]:
+        E = E.union(p_.cs)
     # ---- (1) sanitiser routing ------------------------------------------------------------
     n_fields = 0
     for cq in model.subclasses(f"{FILTER}.LDAPFilter", strict=True):
@@ -201,5 +228,107 @@ def check(model: Model, run: Run) -> None:
         run.ob("J2-escape-lead-byte-escaped", ok)
         if not ok:
             run.fail(Finding("J2-escape-lead-byte-escaped", f"{FILTER}.{esite.name}", f"lead={chr(lead)!r}", "the escape character itself is not escaped", model.loc(FILTER, esite.node)))
+    parser_structure_rules(model, run, unesc)
     from .c19 import parse_results_fresh
     parse_results_fresh(model, run, "sansldap._filter", "J5-parse-results-are-fresh", "from_string(str(f)) == f")
+
+
+def single_byte_pattern(pattern, flags: int) -> bool:
+    """the pattern matches exactly one character, unconditionally: a class / literal / alternation of those"""
+    import re._constants as RC
+    import re._parser as RP
+    try:
+        tree = RP.parse(pattern, flags)
+    except Exception:
+        return False
+    ONE = (RC.IN, RC.LITERAL, RC.NOT_LITERAL, RC.ANY)
+
+    def one(items) -> bool:
+        items = list(items)
+        if len(items) != 1:
+            return False
+        op, arg = items[0]
+        if op in ONE:
+            return True
+        if op is RC.BRANCH:
+            return all(one(alt) for alt in arg[1])
+        if op is RC.SUBPATTERN:
+            return one(arg[3])
+        return False
+    return one(tree)
+
+
+def parser_structure_rules(model: Model, run: Run, unesc) -> None:
+    """J6/J7: the structure of a simple filter is read off the raw text, never off decoded octets.
+    J6  FilterPresent is chosen exactly when the raw value equals b"*" (a dominating literal of its return);
+    J7  nothing that is *definitely* the un-escaper's output is cut at b"*": an escaped \\2a would become a separator.
+        `definitely` = every binding of the local is a call of the un-escaper, or it is that call itself; a parameter is
+        definitely decoded when every call site passes such a value."""
+    from ..anchors import filt as filter_anchors
+    from ..srcmodel import dominating_literals
+    fa = filter_anchors(model)
+    if len(unesc) != 1:
+        run.note("un-escaper not identified: J6/J7 not decided")
+        return
+    unq = unesc[0].func.split(".<locals>")[0]
+    un_name = unq.split(".")[-1]
+
+    def is_decode_call(e: ast.expr) -> bool:
+        return isinstance(e, ast.Call) and isinstance(e.func, ast.Name) and e.func.id == un_name
+
+    def definitely_decoded(fi, e: ast.expr, depth: int = 0) -> bool:
+        if is_decode_call(e):
+            return True
+        if isinstance(e, ast.Call) and isinstance(e.func, ast.Attribute) and e.func.attr in ("strip", "lstrip", "rstrip", "lower", "upper"):
+            return definitely_decoded(fi, e.func.value, depth)
+        if isinstance(e, ast.Name):
+            binds = [a.value for a in walk_no_nested(fi.node) if isinstance(a, (ast.Assign, ast.AnnAssign)) and a.value is not None and
+                     any(isinstance(t, ast.Name) and t.id == e.id for t in (a.targets if isinstance(a, ast.Assign) else [a.target]))]
+            if binds:
+                return all(definitely_decoded(fi, b, depth) for b in binds)
+            if e.id in fi.params() and depth < 3:
+                idx = fi.params().index(e.id)
+                sites = []
+                for f2 in fa.parser_functions + [fa.entry]:
+                    for c in walk_no_nested(f2.node):
+                        if isinstance(c, ast.Call) and isinstance(c.func, ast.Name) and c.func.id == fi.name:
+                            a = c.args[idx] if idx < len(c.args) else next((k.value for k in c.keywords if k.arg == e.id), None)
+                            sites.append((f2, a))
+                return bool(sites) and all(a is not None and definitely_decoded(f2, a, depth + 1) for f2, a in sites)
+        return False
+    n7 = 0
+    for fi in fa.parser_functions:
+        if fi.qualname == unq:
+            continue
+        for c in walk_no_nested(fi.node):
+            if isinstance(c, ast.Call) and isinstance(c.func, ast.Attribute) and c.func.attr in ("split", "partition", "find", "index", "count") and c.args and \
+                    isinstance(c.args[0], ast.Constant) and c.args[0].value in (b"*", "*"):
+                n7 += 1
+                bad = definitely_decoded(fi, c.func.value)
+                run.ob("J7-structure-read-before-unescaping", not bad, {"function": fi.name, "cut": norm(c)[:60]})
+                if bad:
+                    run.fail(Finding("J7-structure-read-before-unescaping", fi.qualname, norm(c)[:80],
+                                     f"{fi.name} cuts `{norm(c.func.value)[:40]}` at '*' after it has been un-escaped: an escaped \\2a inside a component becomes a separator, "
+                                     "so a value containing '*' changes the shape of the filter", model.loc(fi.module, c)))
+    run.floor("cuts at '*' in the filter string parser", n7, 1)
+    n6 = 0
+    for fi in fa.parser_functions:
+        for r in walk_no_nested(fi.node):
+            if isinstance(r, ast.Return) and r.value is not None and any(isinstance(x, ast.Call) and isinstance(x.func, ast.Name) and x.func.id == "FilterPresent" for x in ast.walk(r.value)):
+                n6 += 1
+                lits = dominating_literals(fi.node, r)
+                eqs = [l for l in lits if l.endswith(" == b'*'") or l.startswith("b'*' == ")]
+                ok = False
+                for l in eqs:
+                    v = l.replace(" == b'*'", "").replace("b'*' == ", "")
+                    e = ast.parse(v, mode="eval").body
+                    # the compared value is a raw slice of the input: a local bound once from <view>[a:b].tobytes() / bytes(...)
+                    if isinstance(e, ast.Name):
+                        binds = [a.value for a in walk_no_nested(fi.node) if isinstance(a, ast.Assign) and any(isinstance(t, ast.Name) and t.id == e.id for t in a.targets)]
+                        if len(binds) == 1 and not definitely_decoded(fi, binds[0]) and not any(isinstance(x, ast.Call) and isinstance(x.func, ast.Attribute) and x.func.attr in ("strip", "lstrip", "rstrip", "replace") for x in ast.walk(binds[0])):
+                            ok = True
+                run.ob("J6-present-iff-raw-asterisk", ok, {"function": fi.name, "conditions": lits[-4:]})
+                if not ok:
+                    run.fail(Finding("J6-present-iff-raw-asterisk", fi.qualname, "FilterPresent condition", f"{fi.name} returns a presence filter under {lits[-3:]}: it must be chosen exactly when "
+                                     "the raw value text is b'*'; anything wider turns substring filters whose text it also covers into presence filters", model.loc(fi.module, r)))
+    run.floor("FilterPresent returns in the filter string parser", n6, 1)
